@@ -552,6 +552,43 @@ def c11_11(ctx):
     return out
 
 
+def c11_15(ctx):
+    """SEEN-SET consistency: a local set that is both filled (`S.add(a)`) and consulted (`b in S`) must be filled with what it is
+    consulted for.  The per-cosigner check of a change output remembers the root fingerprints it has met; if it stores one
+    representation (bytes) and looks up another (hex text) the test can never fire, and one cosigner may supply every key"""
+    out = []
+    n_sets = 0
+    for spec in ("psbt:PSBT._describe_basic_multisig_outputs", "psbt:PSBT._describe_basic_multisig_inputs", "psbt:PSBT.describe_basic_multisig"):
+        if not ctx.repo.has_func(spec):
+            continue
+        mod, fn = rl.get(ctx, spec)
+        cfg = cfg_of(fn)
+        sets = {}
+        for n in cfg.nodes:
+            if n.ast is None or isinstance(n.ast, (ast.FunctionDef, ast.ClassDef)) or n.kind == "join":
+                continue
+            root = n.ast.iter if n.kind == "for" else n.ast
+            for x in ast.walk(root):
+                if isinstance(x, ast.Call) and isinstance(x.func, ast.Attribute) and x.func.attr == "add" and isinstance(x.func.value, ast.Name) and x.args:
+                    sets.setdefault(x.func.value.id, {"add": [], "in": []})["add"].append((x, ast.unparse(expand(fn, n.id, x.args[0], depth=3))))
+                if isinstance(x, ast.Compare) and len(x.ops) == 1 and isinstance(x.ops[0], (ast.In, ast.NotIn)) and isinstance(x.comparators[0], ast.Name):
+                    sets.setdefault(x.comparators[0].id, {"add": [], "in": []})["in"].append((x, ast.unparse(expand(fn, n.id, x.left, depth=3))))
+        for name, v in sorted(sets.items()):
+            if not (v["add"] and v["in"]):
+                continue
+            n_sets += 1
+            added, asked = {t for _, t in v["add"]}, {t for _, t in v["in"]}
+            if added == asked:
+                out.append(ctx.ok(spec, "`%s` is filled with and consulted for `%s`" % (name, sorted(added)[0]), v["add"][0][0], mod, key="seen-set:" + name))
+            else:
+                out.append(ctx.bad(spec, "`%s` is filled with `%s` but consulted for `%s`: the two never compare equal (bytes vs text, key vs fingerprint), so the "
+                                         "\"already seen\" test cannot fire and the condition it guards is not enforced" % (name, sorted(added)[0], sorted(asked)[0]),
+                                   v["add"][0][0], mod, key="seen-set:" + name))
+    if not n_sets:
+        raise AnalysisError("describe_basic_multisig: no seen-set found (the per-cosigner check of change outputs keeps one)")
+    return out
+
+
 def c11_12(ctx):
     """COVER: on *every* path through validate on which a redeem / witness script is attached, the named pubkeys are tied to a
     script before the normal exit -- by the per-key membership check against that script, by the membership check against the
@@ -680,5 +717,6 @@ OBLIGATIONS = [
     ("C11.12", "COVER membership", c11_12),
     ("C11.13", "GUARD type", c11_13),
     ("C11.14", "GUARD agreement", c11_14),
+    ("C11.15", "SEEN-SET", c11_15),
 ]
 FLOORS = {"C11.1": 4, "C11.2": 5, "C11.5": 2, "C11.6": 4, "C11.7": 2, "C11.8": 5}
